@@ -520,7 +520,7 @@ def _run(ctx):
         cfgc = kit.write_cfg('TlvModelC08_cov.cfg', constants=wc, invariants=LAWS, raw=SUBST)
         rc = tlc.run('TlvModelC08', cfgc, workers=2, coverage=True)
         for a in ACTIONS_A:
-            if rc.coverage.get(a, (0, 0))[0] == 0:
+            if rc.coverage.get(a, (0, 0))[1] == 0:
                 raise tlc.MachineryError('vacuous: action %s never taken in TlvModelC08' % a)
         kit.check_witnesses('TlvModelC08', WITNESSES, {'K': 1, 'Cap': 200, 'EditK': 0}, raw=SUBST)
     if 'B' in ctx.stages:
